@@ -51,7 +51,15 @@ class FB:
         return FB(z3.Or(self.c, o.c), self.S)
 
     def __bool__(self):
-        raise RuntimeError('branch on symbolic FP condition: use fp_ite / explicit paths')
+        from .values import CTX
+        sc = z3.simplify(self.c)
+        if z3.is_true(sc):
+            return True
+        if z3.is_false(sc):
+            return False
+        if CTX.explorer is None:
+            raise RuntimeError('branch on symbolic FP condition outside an Explorer')
+        return CTX.explorer.decide(self.c)
 
 
 ABSTRACT = {'on': False, 'fresh': [], 'n': 0}
